@@ -163,6 +163,19 @@ func (w *World) oracleC12RequestEnd(r *Request, killed bool) {
 			}
 			c.Remaining = r.delFailed
 			w.S.Stat("probe.rollback-complete")
+		case r.addIdx == len(c.Pod.Expect) && r.badResult:
+			// every plugin succeeded but the last result carries no usable IPv4 address: the request fails for that
+			// reason. No plugin ADD failed, so the rollback clause does not apply; what was set up stays recorded and the
+			// DEL that kubelet sends after a failed ADD must tear all of it down, in reverse
+			if ok {
+				w.fail("C12.order", "unusable-result-reported-ok", "%s: the last plugin's result has no usable IPv4 address but the request succeeded", who)
+				return
+			}
+			c.Remaining = nil
+			for i := range c.Pod.Expect {
+				c.Remaining = append(c.Remaining, i)
+			}
+			w.S.Stat("probe.add-unusable-result-kept-for-del")
 		case r.addIdx == len(c.Pod.Expect):
 			if !ok {
 				w.fail("C12.order", "add-fails-without-cause", "%s: every plugin succeeded but the request failed: %s", who, strings.TrimSpace(string(r.Resp)))
